@@ -33,6 +33,18 @@ def u32():
                                       0xfffffffd, 0xfffffffe, 0xffffffff]), st.integers(0, 0xffffffff))
 
 
+def u32_textlike():
+    """4-byte fields whose bytes are all ASCII hex digits / digits (a parser that sniffs "is this hex text?" on raw
+    bytes misreads them); about one mined block in 18 000 has such a nonce."""
+    digs = st.sampled_from(list(b'0123456789abcdefABCDEF'))
+    return st.lists(digs, min_size=4, max_size=4).map(lambda b: int.from_bytes(bytes(b), 'little'))
+
+
+def hash32_textlike():
+    digs = st.sampled_from(list(b'0123456789abcdef'))
+    return st.lists(digs, min_size=32, max_size=32).map(bytes)
+
+
 def values():
     # (the field is 8 bytes wide: amounts above the 21 million coin limit are not valid money but still have to
     # survive parsing and re-serialisation)
@@ -231,9 +243,16 @@ def block_cases(draw, max_tx=6):
         txs.append(draw(tx_cases(max_in=3, max_out=3, allow_junk=False, allow_coinbase=False, exotic=False)))
     exponent = draw(st.integers(3, 32))
     mantissa = draw(st.one_of(st.sampled_from([1, 0xffff, 0x7fffff, 0x008000]), st.integers(1, 0x7fffff)))
-    return {'header': {'version': draw(st.one_of(st.sampled_from([1, 2, 4, 0x20000000, 0x3fffe000]), u32())),
-                       'prev': draw(st.binary(min_size=32, max_size=32)).hex(),
-                       'time': draw(u32()), 'bits': (exponent << 24) | mantissa, 'nonce': draw(u32())},
+    bits = (exponent << 24) | mantissa
+    textlike = draw(st.integers(0, 5)) == 0
+    if textlike and draw(st.booleans()):
+        bits = draw(u32_textlike())
+    return {'header': {'version': draw(st.one_of(st.sampled_from([1, 2, 4, 0x20000000, 0x3fffe000]), u32(),
+                                                 u32_textlike() if textlike else u32())),
+                       'prev': draw(hash32_textlike() if textlike and draw(st.booleans()) else
+                                    st.binary(min_size=32, max_size=32)).hex(),
+                       'time': draw(st.one_of(u32(), u32_textlike())), 'bits': bits,
+                       'nonce': draw(u32_textlike() if textlike else u32())},
             'txs': txs}
 
 
